@@ -25,7 +25,22 @@ class TasksRun:
     def log(self, *label: Any) -> None:
         self.trace.append({"l": list(label), "t": round(anyio.current_time() / TICK, 6)})
 
-    def make_cb(self, spec: dict[str, Any]) -> Any:
+    def make_cb(self, spec: dict[str, Any], owner: Any = None) -> Any:
+        if spec.get("late") is not None:
+            late = spec["late"]
+
+            async def starter() -> None:
+                # a teardown callback that starts a service task on the owner, which is already being torn down
+                self.log("cbRun", spec["id"])
+                stop = anyio.Event()
+                await owner.start_service_task(self.make_body(late, stop), f"task{late['tid']}",
+                                               teardown_action=self.make_action(late, stop))
+                self.log("lateStarted", late["tid"])
+                if spec["raises"] is not None:
+                    raise EXN[spec["raises"]]()
+
+            return starter
+
         def cb() -> None:
             self.log("cbRun", spec["id"])
             if spec["raises"] is not None:
@@ -178,9 +193,9 @@ class TasksRun:
             op = step["op"]
             if op == "reg":
                 if step.get("via") == "resource":
-                    owner.add_resource(TYPES[1](step["id"]), f"cb{step['id']}", teardown_callback=self.make_cb(step))
+                    owner.add_resource(TYPES[1](step["id"]), f"cb{step['id']}", teardown_callback=self.make_cb(step, owner))
                 else:
-                    owner.add_teardown_callback(self.make_cb(step))
+                    owner.add_teardown_callback(self.make_cb(step, owner))
             elif op == "res":
                 owner.add_resource(TYPES[0](step["v"]), f"r{step['v']}")
             elif op == "tick":
